@@ -12,6 +12,7 @@ import SpdxVerif.Lemmas.GoShaped
 import SpdxVerif.Lemmas.GoScan
 import SpdxVerif.Lemmas.GoDeref
 import SpdxVerif.Lemmas.GoSlices
+import SpdxVerif.Lemmas.GoScanRefine
 import SpdxVerif.Spec.Census
 namespace Spdx.C03
 
@@ -86,6 +87,23 @@ example : (match G.sl [45,111,114] 0 ((3 : Int) - 9) with | .panic => true | .ok
 -- the Go-shaped pipeline on texts that exercise the rewrite and the look-behind
 example : (match G.parseG (str "Apache-2.0-or-later+ AND (MIT +)") with | .ok none => true | _ => false) = true := by decide +kernel
 example : (match G.parseG (str "(Apache-2.0-or-later) AND MIT") with | .ok (some _) => true | _ => false) = true := by decide +kernel
+
+/-! ### the Go-shaped scanner refines the scanner of the main model -/
+
+/-- **refinement**: private buffer, integer cursor, the `-or-later` buffer rewrite
+    (`expression[0:index-9] + "+" + TrimPrefix(expression[index:], "+")`, `index -= 9`) and the one-byte look-behind for `+`
+    yield, on EVERY byte string, exactly the token sequence of the suffix-based scanner that all other theorems are about
+    (`none` = an error was returned) -/
+theorem g_scan_refines (s : Bytes) : G.scanG s = .ok (toks s) := G.scanG_eq s
+
+/-- hence the fully Go-shaped `parse` is the Go-shaped parser run on the main model's tokens -/
+theorem g_parseG_eq_parse (s : Bytes) : G.parseG s = G.parse s := by
+  unfold G.parseG G.parse
+  split
+  · rfl
+  · rw [G.scanG_eq s]
+    simp only [G.bind_ok, toks]
+    cases scan s <;> rfl
 
 /-! ### the index and slice expressions behind the parser (satisfies.go), Go-shaped (Model/GoSlices.lean) -/
 
